@@ -2,6 +2,7 @@ use crate::myc;
 use crate::{StatementData, Value};
 use std::collections::HashMap;
 use std::convert::TryFrom;
+use std::io;
 
 /// A `ParamParser` decodes query parameters included in a client's `EXECUTE` command given
 /// type information for the expected parameters.
@@ -23,6 +24,24 @@ impl<'a> ParamParser<'a> {
             long_data: &stmt.long_data,
             bound_types: &mut stmt.bound_types,
         }
+    }
+}
+
+impl<'a> ParamParser<'a> {
+    /// Check that the whole parameter block of an `EXECUTE` command decodes, so that iterating
+    /// over the parameters later cannot fail halfway through. Leaves the statement untouched.
+    pub(crate) fn validate(input: &[u8], stmt: &StatementData) -> io::Result<()> {
+        let mut bound_types = stmt.bound_types.clone();
+        let mut params = Params {
+            params: stmt.params,
+            input,
+            nullmap: None,
+            col: 0,
+            long_data: &stmt.long_data,
+            bound_types: &mut bound_types,
+        };
+        while params.try_next()?.is_some() {}
+        Ok(())
     }
 }
 
@@ -59,26 +78,39 @@ pub struct ParamValue<'a> {
     pub coltype: myc::constants::ColumnType,
 }
 
-impl<'a> Iterator for Params<'a> {
-    type Item = ParamValue<'a>;
-    fn next(&mut self) -> Option<Self::Item> {
+impl<'a> Params<'a> {
+    /// Decode the next parameter. Malformed input (a parameter block that is shorter than its
+    /// NULL bitmap, type table or values claim, an unknown type code, or values without any bound
+    /// types) is reported as an error.
+    fn try_next(&mut self) -> io::Result<Option<ParamValue<'a>>> {
+        fn bad(msg: &str) -> io::Error {
+            io::Error::new(io::ErrorKind::InvalidData, msg.to_owned())
+        }
+
         if self.nullmap.is_none() {
             let nullmap_len = (self.params as usize + 7) / 8;
+            if self.input.len() < nullmap_len {
+                return Err(bad("parameter block is shorter than its NULL bitmap"));
+            }
             let (nullmap, rest) = self.input.split_at(nullmap_len);
             self.nullmap = Some(nullmap);
             self.input = rest;
 
             if !rest.is_empty() && rest[0] != 0x00 {
+                if rest.len() - 1 < 2 * self.params as usize {
+                    return Err(bad("parameter block is shorter than its type table"));
+                }
                 let (typmap, rest) = rest[1..].split_at(2 * self.params as usize);
-                self.bound_types.clear();
+                let mut types = Vec::with_capacity(self.params as usize);
                 for i in 0..self.params as usize {
-                    self.bound_types.push((
-                        myc::constants::ColumnType::try_from(typmap[2 * i]).unwrap_or_else(|e| {
-                            panic!("bad column type 0x{:x}: {}", typmap[2 * i], e)
-                        }),
+                    types.push((
+                        myc::constants::ColumnType::try_from(typmap[2 * i]).map_err(|e| {
+                            bad(&format!("bad column type 0x{:x}: {}", typmap[2 * i], e))
+                        })?,
                         (typmap[2 * i + 1] & 128) != 0,
                     ));
                 }
+                *self.bound_types = types;
                 self.input = rest;
             } else if !rest.is_empty() {
                 // new-params-bound flag is 0: types from the previous execution are reused,
@@ -88,9 +120,12 @@ impl<'a> Iterator for Params<'a> {
         }
 
         if self.col >= self.params {
-            return None;
+            return Ok(None);
         }
-        let pt = &self.bound_types[self.col as usize];
+        let pt = *self
+            .bound_types
+            .get(self.col as usize)
+            .ok_or_else(|| bad("parameter values sent without any bound parameter types"))?;
 
         // https://web.archive.org/web/20170404144156/https://dev.mysql.com/doc/internals/en/null-bitmap.html
         // NULL-bitmap-byte = ((field-pos + offset) / 8)
@@ -98,14 +133,14 @@ impl<'a> Iterator for Params<'a> {
         if let Some(nullmap) = self.nullmap {
             let byte = self.col as usize / 8;
             if byte >= nullmap.len() {
-                return None;
+                return Ok(None);
             }
             if (nullmap[byte] & 1u8 << (self.col % 8)) != 0 {
                 self.col += 1;
-                return Some(ParamValue {
+                return Ok(Some(ParamValue {
                     value: Value::null(),
                     coltype: pt.0,
-                });
+                }));
             }
         } else {
             unreachable!();
@@ -114,12 +149,20 @@ impl<'a> Iterator for Params<'a> {
         let v = if let Some(data) = self.long_data.get(&self.col) {
             Value::bytes(&data[..])
         } else {
-            Value::parse_from(&mut self.input, pt.0, pt.1).unwrap()
+            Value::parse_from(&mut self.input, pt.0, pt.1)?
         };
         self.col += 1;
-        Some(ParamValue {
+        Ok(Some(ParamValue {
             value: v,
             coltype: pt.0,
-        })
+        }))
+    }
+}
+
+impl<'a> Iterator for Params<'a> {
+    type Item = ParamValue<'a>;
+    fn next(&mut self) -> Option<Self::Item> {
+        // the parameter block was validated before the shim got to see it (`ParamParser::validate`)
+        self.try_next().unwrap()
     }
 }
